@@ -145,7 +145,7 @@ func c12History(r *core.Run, depth int) {
 				if oi == scribble {
 					for k := range hs {
 						for i := range hs[k].b {
-							hs[k].b[i] ^= 0xA5
+							hs[k].b[i] = 0xA5
 						}
 						hs[k].gone = hs[k].gone || hs[k].b != nil
 					}
